@@ -18,6 +18,7 @@ mod c12;
 mod c15;
 mod c16;
 mod c13;
+mod c10;
 
 pub use util::*;
 
@@ -44,6 +45,7 @@ fn props() -> Vec<Prop> {
         Prop { id: "C15", run: c15::run, gen: c15::gen },
         Prop { id: "C16", run: c16::run, gen: c16::gen },
         Prop { id: "C13", run: c13::run, gen: c13::gen },
+        Prop { id: "C10", run: c10::run, gen: c10::gen },
     ]
 }
 
